@@ -587,6 +587,83 @@ fn main() {
         None => o.put("alreadyRunningPolarity", "false", ""),
     }
 
+    // ---- C18: what each spawn entry point does with the ActorHandle
+    let classify_disp = |body: &str| -> &'static str {
+        let b = body;
+        if b.contains("let _handle = ") || b.contains("let _ = P :: spawn_actor") || b.contains("let _ = S :: spawn_actor") {
+            ".dropped"
+        } else if b.contains(". detach ( )") {
+            ".detached"
+        } else if b.contains("OwningAddr :: new ( addr , handle )") || b.contains("OwningAddr { addr , handle }")
+            || b.contains("( addr , handle ) }")
+        {
+            ".kept"
+        } else {
+            ".unknown"
+        }
+    };
+    let entries: Vec<(&str, Option<&(String, String, usize)>)> = vec![
+        ("spawn", f("trait Spawnable", "spawn")),
+        ("spawnOwning", f("trait Spawnable", "spawn_owning")),
+        ("spawnDefault", f("trait DefaultSpawnable", "spawn_default")),
+        ("spawnOwningDefault", f("trait DefaultSpawnable", "spawn_owning")),
+        ("spawnOnStream", f("trait StreamSpawnable", "spawn_on_stream")),
+        ("spawnOwningOnStream", f("trait StreamSpawnable", "spawn_owning_on_stream")),
+        ("builderSpawn", f("ActorBuilderWithChannel", "spawn")),
+        ("builderSpawnOwning", f("ActorBuilderWithChannel", "spawn_owning")),
+        ("streamBuilderSpawn", f("StreamActorBuilder", "spawn")),
+        ("streamBuilderSpawnOwning", f("StreamActorBuilder", "spawn_owning")),
+        ("fromRegistry", f("trait SpawnableService", "from_registry_and_spawn")),
+        ("spawnWith", f("trait SpawnableWith", "spawn_with")),
+    ];
+    let mut spawn_lean = String::from("import Hannibal.Model.Spawn\n/- GENERATED by /verif/extract from /repo's working tree on every check run. Do not edit. -/\nnamespace Hannibal\n\ndef SpawnWiring.current : SpawnWiring where\n  disp := fun\n");
+    for (name, k) in &entries {
+        let v = match k {
+            Some(k) => {
+                let v = classify_disp(&k.0);
+                o.put(&format!("spawnDisp.{}", name), v, at(k));
+                v
+            }
+            None => {
+                o.put(&format!("spawnDisp.{}", name), ".unknown", "");
+                ".unknown"
+            }
+        };
+        spawn_lean.push_str(&format!("    | .{} => {}\n", name, v));
+    }
+    // `register` = `self . spawn ( ) . register ( )` on the builder: inherits builderSpawn
+    let reg = match f("ActorBuilderWithChannel", "register") {
+        Some(k) if k.0.contains("self . spawn ( ) . register ( )") => {
+            let v = o.get("spawnDisp.builderSpawn");
+            o.put("spawnDisp.register", v.clone(), at(k));
+            v
+        }
+        _ => {
+            o.put("spawnDisp.register", ".unknown", "");
+            ".unknown".to_string()
+        }
+    };
+    spawn_lean.push_str(&format!("    | .register => {}\n", reg));
+    // does dropping an ActorHandle detach?  (`impl Drop for ActorHandle` running the detach closure)
+    let hdd = match fns.map.iter().find(|(k, _)| k.0.starts_with("Drop") && k.0.ends_with("for ActorHandle") && k.1 == "drop") {
+        Some((_, k)) if k.0.contains("detach_fn") => {
+            o.put("handleDropDetaches", "true", at(k));
+            "true"
+        }
+        _ => {
+            o.put("handleDropDetaches", "false", "");
+            "false"
+        }
+    };
+    spawn_lean.push_str(&format!("  handleDropDetaches := {}\n\nend Hannibal\n", hdd));
+    if let Some(dir) = Path::new(lean_out).parent() {
+        let sp = dir.join("SpawnWiring.lean");
+        let old = fs::read_to_string(&sp).unwrap_or_default();
+        if old != spawn_lean {
+            fs::write(&sp, &spawn_lean).unwrap();
+        }
+    }
+
     // ---- emit Lean
     let g = |n: &str| o.get(n);
     let lv = |n: &str, dflt: &str| {
